@@ -263,6 +263,43 @@ theorem from_members_spec (f : Oracle) (i : Nat) (bits : Nat) (r : BO) (j : Nat)
     rw [this.1 w]
     simp [initBO, Bitmap.init]
 
+/-- Or, in terms of the two member sets: NULL or exactly the union -/
+theorem or_exact (f : Oracle) (i : Nat) (a b r : BO) (j : Nat) (ha : Inv a.st) (hb : Inv b.st)
+    (h : orO f i a b = (some r, j)) :
+    (∀ w, r.st.bits.testBit w = (a.st.bits.testBit w || b.st.bits.testBit w)) ∧ Inv r.st := by
+  obtain ⟨h1, h2⟩ := or_spec f i a b r j ha (members_lt b.st) h
+  refine ⟨fun w => ?_, h2⟩
+  rw [h1 w, bits_of_members b.st hb.small w]
+
+/-- And / Xor / AndNot under any refusal pattern: NULL, or exactly intersection / symmetric difference /
+    difference of the member sets, with the invariant -/
+theorem and_exact (f : Oracle) (i : Nat) (a b r : BO) (j : Nat) (ha : Inv a.st) (h : andO f i a b = (some r, j)) :
+    (∀ w, r.st.bits.testBit w = (a.st.bits.testBit w && b.st.bits.testBit w)) ∧ Inv r.st := by
+  obtain ⟨h1, h2⟩ := from_members_spec f i _ r j (members_lt _) h
+  refine ⟨fun w => ?_, h2⟩
+  rw [h1 w, bits_of_members ⟨.array, 0, a.st.bits &&& b.st.bits⟩ (fun v hv => by
+    simp only []; rw [Nat.testBit_and, ha.small v hv]; rfl) w]
+  simp only [Nat.testBit_and]
+
+theorem xor_exact (f : Oracle) (i : Nat) (a b r : BO) (j : Nat) (ha : Inv a.st) (hb : Inv b.st)
+    (h : xorO f i a b = (some r, j)) :
+    (∀ w, r.st.bits.testBit w = (a.st.bits.testBit w ^^ b.st.bits.testBit w)) ∧ Inv r.st := by
+  obtain ⟨h1, h2⟩ := from_members_spec f i _ r j (members_lt _) h
+  refine ⟨fun w => ?_, h2⟩
+  rw [h1 w, bits_of_members ⟨.array, 0, a.st.bits ^^^ b.st.bits⟩ (fun v hv => by
+    simp only []; rw [Nat.testBit_xor, ha.small v hv, hb.small v hv]; rfl) w]
+  simp only [Nat.testBit_xor]
+
+theorem andNot_exact (f : Oracle) (i : Nat) (a b r : BO) (j : Nat) (ha : Inv a.st)
+    (h : andNotO f i a b = (some r, j)) :
+    (∀ w, r.st.bits.testBit w = (a.st.bits.testBit w && !b.st.bits.testBit w)) ∧ Inv r.st := by
+  obtain ⟨h1, h2⟩ := from_members_spec f i _ r j (members_lt _) h
+  refine ⟨fun w => ?_, h2⟩
+  rw [h1 w, bits_of_members ⟨.array, 0, a.st.bits ^^^ (a.st.bits &&& b.st.bits)⟩ (fun v hv => by
+    simp only []; rw [Nat.testBit_xor, Nat.testBit_and, ha.small v hv]; rfl) w]
+  simp only [Nat.testBit_xor, Nat.testBit_and]
+  cases a.st.bits.testBit w <;> cases b.st.bits.testBit w <;> rfl
+
 /-- histories: the invariant survives any sequence of Adds / Removes under any refusal pattern -/
 theorem addMany_inv (f : Oracle) (vs : List Nat) (i : Nat) (b : BO) (hvs : ∀ v ∈ vs, v < 65536) (hi : Inv b.st) :
     Inv (addManyO f i b vs).1.st := by
